@@ -50,6 +50,7 @@ impl Variant {
 // ------------------------------------------------------------------------------------------
 
 pub const FILTERED_MODEL_VAL: u64 = 99;
+pub const FILTERED_MODEL_VAL_B: u64 = 98;
 
 struct KeyFilter {
     k1: Vec<u8>,
@@ -129,13 +130,25 @@ pub fn open_db(dir: &Path, variant: &Variant, conc: &Concretizer) -> fjall::Resu
         let k1 = conc.key(1);
         let k2 = conc.key(2);
         let replacement = conc.val(FILTERED_MODEL_VAL);
+        let replacement_b = conc.val(FILTERED_MODEL_VAL_B);
         b = b.with_compaction_filter_factories(Arc::new(move |name: &str| {
             if names.iter().any(|n| n == name) {
-                let f: Arc<dyn fjall::compaction::filter::Factory> = Arc::new(KeyFilterFactory {
-                    k1: k1.clone(),
-                    k2: k2.clone(),
-                    replacement: replacement.clone(),
-                });
+                // every name gets its OWN filter (both factories report the same name()):
+                //   "a": key 1 -> Remove, key 2 -> ReplaceValue(99)
+                //   any other name: key 2 -> Remove, key 1 -> ReplaceValue(98)
+                let f: Arc<dyn fjall::compaction::filter::Factory> = if name == "a" {
+                    Arc::new(KeyFilterFactory {
+                        k1: k1.clone(),
+                        k2: k2.clone(),
+                        replacement: replacement.clone(),
+                    })
+                } else {
+                    Arc::new(KeyFilterFactory {
+                        k1: k2.clone(),
+                        k2: k1.clone(),
+                        replacement: replacement_b.clone(),
+                    })
+                };
                 Some(f)
             } else {
                 None
@@ -763,15 +776,15 @@ fn arr_u64(v: &Value) -> Vec<u64> {
         .unwrap_or_default()
 }
 
-fn filtered_form(k: u64, v: u64) -> u64 {
+fn filtered_form(kind: &str, k: u64, v: u64) -> u64 {
     if v == 0 {
-        0
-    } else if k == 1 {
-        0
-    } else if k == 2 {
-        FILTERED_MODEL_VAL
-    } else {
-        v
+        return 0;
+    }
+    match (kind, k) {
+        ("A", 1) | ("B", 2) => 0,
+        ("A", 2) => FILTERED_MODEL_VAL,
+        ("B", 1) => FILTERED_MODEL_VAL_B,
+        _ => v,
     }
 }
 
@@ -841,7 +854,7 @@ pub fn compare(w: &mut World, st: &Value, act: &Value, deep: bool) -> Diff {
             for (what, got, exp) in [("get", r.point[i], exp_point[i]), ("iter", r.scan[i], exp_scan[i])] {
                 let want = refv[i];
                 if filtered && !tainted {
-                    let ff = filtered_form(key, want);
+                    let ff = filtered_form(m["fkind"].as_str().unwrap_or("none"), key, want);
                     // (a write to the key since the observation resets stickiness: the reference
                     // value changed)
                     let seen = w.seen_filtered.get(&(name.clone(), key)).map_or(false, |(s, at)| *s && *at == want);
@@ -905,7 +918,7 @@ pub fn compare(w: &mut World, st: &Value, act: &Value, deep: bool) -> Diff {
             for i in 0..(w.nkeys as usize) {
                 let key = (i + 1) as u64;
                 let want = refv[i];
-                let ff = filtered_form(key, want);
+                let ff = filtered_form(m["fkind"].as_str().unwrap_or("none"), key, want);
                 let now_filtered = want != ff && r.scan[i] == ff && r.point[i] == ff;
                 w.seen_filtered.insert((name.clone(), key), (now_filtered, want));
             }
